@@ -148,6 +148,15 @@ theorem ra_wrap_lift (P C N : ℝ) (hC0 : 0 ≤ C) (hC1 : C < 360)
 /-- 1583-01-01 as a day number -/
 def rd1583 : Int := 577814
 
+-- non-vacuity of `ra_wrap_lift`: the three shapes of the wrap - before it (P = −0.5: yesterday's RA is
+-- 359.5), after it (N = 360.5: tomorrow's is 0.5) and away from it - meet the hypotheses
+example : raInterpDeltas (359.5 : ℝ) 0.4 1.3 = (1.3 - (-0.5), 1.3 + (-0.5) - 2 * 0.4) := by
+  have := ra_wrap_lift (-0.5) 0.4 1.3 (by norm_num) (by norm_num) (by norm_num) (by norm_num) (by norm_num) (by norm_num)
+  norm_num at this ⊢; exact this
+example : raInterpDeltas (358.5 : ℝ) 359.5 0.5 = (360.5 - 358.5, 360.5 + 358.5 - 2 * 359.5) := by
+  have := ra_wrap_lift 358.5 359.5 360.5 (by norm_num) (by norm_num) (by norm_num) (by norm_num) (by norm_num) (by norm_num)
+  norm_num at this ⊢; exact this
+
 theorem rd1583_eq : toRD ⟨1583, 1, 1⟩ = rd1583 := by decide
 
 /-- every day number from 1583-01-01 on denotes a Gregorian date (valid month and day, after the reform) -/
